@@ -4,6 +4,8 @@ classes of the usim that is imported from $USIM_REPO, in the check's own process
 after every simulation.  No source hook in /repo is needed.
 """
 import contextlib
+import signal as _signal
+import threading as _threading
 
 from usim._core import loop as _loop
 from usim._core.loop import Loop, Interrupt
@@ -18,6 +20,30 @@ class Livelock(BaseException):
 
 class RunawayRun(BaseException):
     pass
+
+
+# Watchdog for a *single activation* that never ends (code under test spinning synchronously
+# without ever suspending: no activation boundary is reached, so the counters above never see
+# it).  Wall-clock budgets; only armed in the main thread (signals are delivered there).
+SPIN_BUDGET_SYMBOLIC = 90.0     # an activation may contain many solver queries
+SPIN_BUDGET_CONCRETE = 15.0
+
+
+def _on_spin(signum, frame):
+    raise Livelock('one activation did not end within its wall-clock budget (synchronous spin)')
+
+
+def _guarded_run(orig, loop, target, signal):
+    if _threading.current_thread() is not _threading.main_thread():
+        return orig(loop, target, signal)
+    budget = SPIN_BUDGET_CONCRETE if E.concrete else SPIN_BUDGET_SYMBOLIC
+    old = _signal.signal(_signal.SIGALRM, _on_spin)
+    _signal.setitimer(_signal.ITIMER_REAL, budget)
+    try:
+        return orig(loop, target, signal)
+    finally:
+        _signal.setitimer(_signal.ITIMER_REAL, 0)
+        _signal.signal(_signal.SIGALRM, old)
 
 
 class Probe:
@@ -60,7 +86,7 @@ class Probe:
             self.activations.append((loop, now, loop.turn, None, None))
             for h in self.hooks:
                 h(loop, target, signal)
-            return self._orig_run(loop, target, signal)
+            return _guarded_run(self._orig_run, loop, target, signal)
         if last is None or not self._same(last, now):
             if last is not None and self.check_clock:
                 E.prove(GE(now, last), 'clock-monotone',
@@ -95,7 +121,7 @@ class Probe:
         for h in self.hooks:
             h(loop, target, signal)
         try:
-            return self._orig_run(loop, target, signal)
+            return _guarded_run(self._orig_run, loop, target, signal)
         except BaseException as err:
             self.escaped.append(err)
             raise
